@@ -5,7 +5,7 @@
    (`repaired`), which `checked_tree_is_repaired` shows the checked tree to be. *)
 From Coq Require Import ZArith List Bool.
 From GD Require Import C02.Model C02.Slices C02.CodecProofs C02.BzRead C02.HistoryProofs C02.Windows
-                       C02.Handle C02.Current C02.Refutations C02.MplexCache C02.Writes Gen.C02Cfg.
+                       C02.Handle C02.Current C02.Refutations C02.MplexCache C02.Writes C02.BzErr Gen.C02Cfg.
 Import ListNotations.
 Local Open Scope Z_scope.
 
@@ -119,6 +119,57 @@ Theorem cursor_history_independent_raw_text :
       seek_read dec c rd st1 count n = Some (st2, bs, cnt) /\
       cnt = pure_count rd count n /\ firstn (Z.to_nat (cnt * rd_size rd)) bs = pure_bytes rd count n.
 Proof. exact cursor_history_independent. Qed.
+
+(* ---- damaged compressed streams: the decoder may answer `error` at any call (dec_sound).
+   With the error exits of _GD_Bzip2Read/_GD_Bzip2Seek emptying the window at the decoder's position
+   (flag fix_bz_err, read from bzip.c by the translator; commit 3ea47ff) file->pos tracks the cursor
+   after ANY outcome: every seek and read leaves CohB (file->pos = cursor/size over a window of stream
+   bytes, window bases multiples of the buffer size), a successful one satisfies the contract of the
+   faultless decoder, a failed one leaves an empty window (Failed).  The buffer size is a multiple of
+   the sample size (1000000 and 64 are, for every GetData type). *)
+Theorem bzip2_seek_after_any_outcome :
+  forall BUF dec c, fix_bz_err c = true ->
+  forall rd st count,
+    wf_rd rd -> rd_enc rd = EBz -> dec_sound BUF dec (rd_bytes rd) -> fix_bz_rewind c = true -> (rd_size rd | BUF) ->
+    CohB BUF c rd st -> 0 <= count ->
+    exists st' p, bz_seek dec c (rd_bytes rd) (rd_size rd) st count = Some (st', p) /\
+      CohB BUF c rd st' /\
+      (0 <= p -> At rd st' p /\ p = Z.min count (nsamp rd)) /\
+      (p < 0 -> Failed BUF rd st st').
+Proof. exact bz_seek_any. Qed.
+Theorem bzip2_read_after_any_outcome :
+  forall BUF dec c, fix_bz_err c = true ->
+  forall rd st p n,
+    wf_rd rd -> rd_enc rd = EBz -> dec_sound BUF dec (rd_bytes rd) -> fix_bz_eof c = true -> (rd_size rd | BUF) ->
+    At rd st p -> Ibase BUF st -> 0 <= n ->
+    exists st' bs cnt, bz_read dec c (rd_bytes rd) (rd_size rd) st n = Some (st', bs, cnt) /\
+      CohB BUF c rd st' /\
+      (cnt < 0 -> Failed BUF rd st st') /\
+      (0 <= cnt ->
+         cnt = read_count rd p n /\ cnt * rd_size rd <= len bs /\
+         firstn (Z.to_nat (cnt * rd_size rd)) bs = slice (rd_bytes rd) (p * rd_size rd) (cnt * rd_size rd) /\
+         At rd st' (p + cnt)).
+Proof. exact bz_read_any. Qed.
+(* a failed call leaves file->pos = cursor / size exactly, over an empty window of stream bytes *)
+Theorem failed_call_leaves_position_on_cursor :
+  forall BUF rd st0 st', Failed BUF rd st0 st' ->
+    r_fpos st' = (b_base st' + b_pos st') / rd_size rd /\ bz_win rd st' /\ b_end st' = 0.
+Proof. exact failed_pos. Qed.
+Theorem freshly_opened_bzip2_cursor : forall BUF c rd, wf_rd rd -> CohB BUF c rd st_opened.
+Proof. exact opened_CohB. Qed.
+Theorem faultless_decoder_is_sound : forall BUF dec S, dec_ok BUF dec S -> dec_sound BUF dec S.
+Proof. exact dec_ok_sound. Qed.
+(* refuted for the code before 3ea47ff (flag off):
+   12 bytes, 4-byte window, wrong stored CRC: after a failed seek the read of [2,4) returns 10 11 where
+   a fresh handle returns 2 3; after a failed read the window is overwritten; right with the flag on *)
+Theorem decoder_error_history_dependence_refuted :
+  ask_crc cfg_noerr [] 2 2 = RData [2; 3] /\
+  ask_crc cfg_noerr [CGet 0 (Some 0) 2] 20 1 = RErr E_IO /\
+  ask_crc cfg_noerr [CGet 0 (Some 0) 2; CGet 0 (Some 20) 1] 2 2 = RData [10; 11] /\
+  ask_crc cfg_err [CGet 0 (Some 0) 2; CGet 0 (Some 20) 1] 2 2 = RData [2; 3] /\
+  ask_crc cfg_noerr [CGet 0 (Some 5) 9] 5 2 <> ask_crc cfg_noerr [] 5 2 /\
+  ask_crc cfg_err [CGet 0 (Some 5) 9] 5 2 = ask_crc cfg_err [] 5 2.
+Proof. exact decoder_error_witness. Qed.
 
 (* ---- hypotheses are satisfiable: libbz2 as observed, and a concrete database on the checked tree *)
 Theorem libbz2_model_conforms : forall BUF eager, 0 < BUF -> forall S, dec_ok BUF (dec_bz2 BUF eager) S.
